@@ -232,6 +232,8 @@ def analyse(rep, prog, name, full):
     rep.check("WEIGHTS.uniform", ok, fwhere(f), "weights = rng.uniform(low=w_min, high=w_max, size=p x p)",
               "weights are drawn as uniform(low=%s, high=%s, size=%s)" % tuple(fmt(slots.get(k, ("const", None))) for k in ("low", "high", "size")))
     # mask = triu(., k >= 1)
+    if strip_cast(mask)[0] == "ext" and strip_cast(mask)[1] == "numpy.triu":
+        mask = strip_cast(mask)             # np.triu(U <= q, k=1).astype(float): the cast of a 0/1 mask keeps the mask
     if mask[0] == "after" and mask[1] in S.loopinfo:
         # the same mask written as a loop: A = zeros((p, p)); for i in range(p): A[i, i+1:] = 1  (row i gets the columns j > i)
         li_ = S.loopinfo[mask[1]]
